@@ -8,6 +8,7 @@ guarded-insert discipline on occupied edges, the closed set of reasons for which
 from __future__ import annotations
 
 import ast
+import copy
 import json
 import os
 from typing import Any, Dict, List, Optional, Tuple
@@ -273,23 +274,121 @@ def _label_loop(chk, fi, fm, inl) -> None:
         chk.expect(ok, "label-edges", fi.site(ll), f"edges_{side} = BASE_EDGES[base of residue_{side}][name of atom_{side}]", f"edges_{side} is not looked up from BASE_EDGES by the residue's base and the atom's name", K(fi, f"edges_{side}"), found=[norm(x) for x in d])
     d = [v for s, v in astq.assignments(ll, "cis_trans") if v is not None]
     chk.expect(len(d) == 1 and norm(d[0]) in ("detect_cis_trans(residue_i, residue_j)", "detect_cis_trans(residue_j, residue_i)"), "label-cistrans", fi.site(ll), "cis/trans from detect_cis_trans of the two residues", "cis/trans letter does not come from detect_cis_trans(residue_i, residue_j)", K(fi, "cistrans-src"))
-    # orientation
-    la = [a for a in astq.calls(ll, "append") if astq.dotted(a.func.value) == "labels"]
-    ors = [s for s in ll.body if isinstance(s, ast.If) and norm(s.test) in ("residue_i < residue_j", "residue_j > residue_i")]
-    ok = False
-    if len(la) == 2 and len(ors) == 1:
-        in_then = [a for a in la if any(a is n for s in ors[0].body for n in ast.walk(s))]
-        in_else = [a for a in la if any(a is n for s in ors[0].orelse for n in ast.walk(s))]
-        if len(in_then) == 1 and len(in_else) == 1:
-            ok = norm(in_then[0].args[0]) == "(residue_i, residue_j, cis_trans, edge_i, edge_j)" and norm(in_else[0].args[0]) == "(residue_j, residue_i, cis_trans, edge_j, edge_i)"
-            for a in la:
-                lps = [l for l in fm.of(fm.stmt_of(a)).loops if any(l is n for n in ast.walk(ll)) and l is not ll]
-                ok = ok and sorted(norm(l.iter) for l in lps) == ["edges_i", "edges_j"] and {norm(l.target) + "<-" + norm(l.iter) for l in lps} == {"edge_i<-edges_i", "edge_j<-edges_j"}
-    chk.expect(ok, "label-orientation", fi.site(ll), "labels are (lower, higher, c/t, edge of lower, edge of higher) for every edge letter combination", "labels are not oriented (lower residue first, edges swapped with the residues) over all edge letter combinations", K(fi, "orientation"), found=[norm(a.args[0]) for a in la])
+    # orientation: every site that adds labels, read symbolically
+    _label_orientation(chk, fi, fm, inl, ll)
+
+
+def _pair_sources(it: ast.expr, inl, at) -> Optional[List[str]]:
+    """For an iterable of tuples: the list each tuple position ranges over, when the iterable is the full product of plain lists."""
+    if isinstance(it, ast.Name):
+        d = inl.reaching(it.id, at)
+        if d is None:
+            return None
+        it = d
+    if isinstance(it, ast.Call) and astq.dotted(it.func) in ("itertools.product", "product") and not it.keywords and all(isinstance(a, ast.Name) for a in it.args):
+        return [a.id for a in it.args]
+    if isinstance(it, (ast.ListComp, ast.GeneratorExp)) and isinstance(it.elt, ast.Tuple) and all(isinstance(e, ast.Name) for e in it.elt.elts):
+        src = {}
+        for g in it.generators:
+            if g.ifs or not isinstance(g.target, ast.Name) or not isinstance(g.iter, ast.Name):
+                return None
+            src[g.target.id] = g.iter.id
+        if sorted(src) != sorted(e.id for e in it.elt.elts):
+            return None
+        return [src[e.id] for e in it.elt.elts]
+    return None
+
+
+def _label_orientation(chk, fi, fm, inl, ll) -> None:
+    sites = []  # (tuple expr, {edge var: source list}, stmt)
+    for call in [c for c in ast.walk(ll) if isinstance(c, ast.Call) and isinstance(c.func, ast.Attribute) and astq.dotted(c.func.value) == "labels" and c.func.attr in ("append", "extend")]:
+        st = fm.stmt_of(call)
+        binds: Dict[str, Optional[str]] = {}
+        complete = True
+
+        def bind(target, it, at):
+            nonlocal complete
+            if isinstance(target, ast.Name):
+                if isinstance(it, ast.Name):
+                    binds[target.id] = it.id
+                else:
+                    complete = False
+            elif isinstance(target, ast.Tuple) and all(isinstance(e, ast.Name) for e in target.elts):
+                ps = _pair_sources(it, inl, at)
+                if ps is None or len(ps) != len(target.elts):
+                    complete = False
+                else:
+                    for e, p in zip(target.elts, ps):
+                        binds[e.id] = p
+            else:
+                complete = False
+
+        for l in fm.of(st).loops:
+            if l is ll or not any(l is n for n in ast.walk(ll)):
+                continue
+            if any(isinstance(n, (ast.Break, ast.Continue)) for b in l.body for n in ast.walk(b)):
+                complete = False
+            bind(l.target, l.iter, l)
+        arg = call.args[0] if call.args else None
+        if call.func.attr == "extend":
+            if not isinstance(arg, (ast.GeneratorExp, ast.ListComp)):
+                chk.error("label-orientation", fi.site(call), f"`{norm(call)[:80]}`: extend argument not a comprehension")
+                continue
+            for g in arg.generators:
+                if g.ifs:
+                    complete = False
+                bind(g.target, g.iter, st)
+            tup = arg.elt
+        else:
+            tup = arg
+        if not complete or not isinstance(tup, ast.Tuple) or len(tup.elts) != 5:
+            chk.error("label-orientation", fi.site(call), f"label site `{norm(call)[:90]}` not understood (iteration over edge letters or the 5-tuple)")
+            continue
+        sites.append((tup, binds, st, call))
+    if not sites:
+        chk.error("label-orientation", fi.site(ll), "no site adding to `labels` found in the label loop")
+        return
+    covered = set()
+    for tup, binds, st, call in sites:
+        fs = facts(fm.guards_within(st, ll))
+        lower = None  # name of the residue known to be the lower one on this path
+        for g in fs:
+            t = norm(g.test)
+            if t in ("residue_i < residue_j", "residue_j > residue_i"):
+                lower = "i" if g.polarity else "j"
+            elif t in ("residue_j < residue_i", "residue_i > residue_j"):
+                lower = "j" if g.polarity else "i"
+        if lower is None:
+            chk.violation("label-orientation", fi.site(call), f"`{norm(call)[:80]}` adds labels without a `residue_i < residue_j` decision: the same pair gets two different labels depending on atom order, and the contact counts split", K(fi, "orientation-unguarded"))
+            continue
+        covered.add(lower)
+        hi = "j" if lower == "i" else "i"
+        e = [norm(x) for x in tup.elts]
+        src = [binds.get(e[3]), binds.get(e[4])]
+        want = ([f"residue_{lower}", f"residue_{hi}", "cis_trans"], [f"edges_{lower}", f"edges_{hi}"])
+        if e[:3] == want[0] and src == want[1]:
+            chk.ok("label-orientation", fi.site(call), f"lower residue_{lower} first: ({', '.join(e)}) with edges from {src[0]} x {src[1]} (full product)")
+        elif None in src or e[2] != "cis_trans" or {e[0], e[1]} != {"residue_i", "residue_j"}:
+            chk.error("label-orientation", fi.site(call), f"label tuple `({', '.join(e)})` / edge sources {src} not understood")
+        else:
+            chk.violation(
+                "label-orientation",
+                fi.site(call),
+                f"when residue_{lower} is the lower one the label is ({', '.join(e)}) with edges from {src}: expected ({', '.join(want[0])}, edge of {want[1][0]}, edge of {want[1][1]}) - residues and their edges are not swapped together",
+                K(fi, "orientation"),
+                expected=want[0] + want[1],
+                found=e[:3] + src,
+            )
+    if covered != {"i", "j"} and not any(True for _ in []):
+        miss = {"i", "j"} - covered
+        if miss:
+            chk.violation("label-orientation", fi.site(ll), f"no labels are added when residue_{sorted(miss)[0]} is the lower residue", K(fi, "orientation-missing"))
 
 
 
 def _selection_loop(chk, fi, fm, inl, fold, c) -> None:
+    """Path-based reading of the selection loop: on every path through its body, a candidate is reported iff it has enough
+    contacts and both its (residue, edge) keys were tested free; exactly the reported candidates claim their two keys."""
     sl = [l for l in fi.node.body if isinstance(l, ast.For) and isinstance(l.iter, ast.Call) and astq.callee_name(l.iter) == "most_common"]
     if len(sl) != 1:
         raise AnalysisError("find_pairs: selection loop over Counter.most_common() not found")
@@ -300,60 +399,152 @@ def _selection_loop(chk, fi, fm, inl, fold, c) -> None:
         raise AnalysisError("selection loop target is not (interaction, count)")
     cnt = sl.target.elts[1].id
     inter = norm(sl.target.elts[0])
-    skips = [st3 for st3 in sl.body if isinstance(st3, ast.If) and st3.body and isinstance(st3.body[-1], ast.Continue) and not st3.orelse]
-    count_skips = [s for s in skips if cnt in astq.names(s.test)]
-    occ_skips = [s for s in skips if astq.match(s.test, "(R_, E_) in occupied") is not None]
-    extra = [s for s in skips if s not in count_skips and s not in occ_skips]
-    if len(count_skips) == 1:
-        try:
-            reg = intervals.region(count_skips[0].test, [((lambda n: isinstance(n, ast.Name) and n.id == cnt), "raw")], fold, extra_thresholds=(0.5, 1.5, 2.5, 3.5))
-            bad = {k: v for k, v in reg.items() if v != (k[0] < c["min_contacts"] - 0.25) and abs(k[0] - round(k[0])) != 0.0 or (float(k[0]).is_integer() and v != (k[0] < c["min_contacts"]))}
-            # evaluate on integer counts 0..5 explicitly
-            ints = {}
-            for n in range(0, 6):
-                ints[n] = bool(intervals.evaluate(count_skips[0].test, lambda e, n=n: float(n) if isinstance(e, ast.Name) and e.id == cnt else None, fold))
-            want = {n: n < c["min_contacts"] for n in range(0, 6)}
-            chk.expect(ints == want, "select-min-contacts", fi.site(count_skips[0]), f"a label is skipped iff it has fewer than {c['min_contacts']} contacts", f"count threshold `{norm(count_skips[0].test)}` does not skip exactly the labels with fewer than {c['min_contacts']} contacts", K(fi, "min-contacts"), expected=want, found=ints)
-        except intervals.NotThreshold as ex:
-            chk.error("select-min-contacts", fi.site(count_skips[0]), str(ex))
+    unp = [s for s in sl.body if isinstance(s, ast.Assign) and isinstance(s.targets[0], ast.Tuple) and norm(s.value) == inter]
+    if isinstance(sl.target.elts[0], ast.Tuple) and len(sl.target.elts[0].elts) == 5:
+        names = [norm(e) for e in sl.target.elts[0].elts]
+    elif len(unp) == 1 and len(unp[0].targets[0].elts) == 5:
+        names = [norm(e) for e in unp[0].targets[0].elts]
     else:
-        chk.violation("select-min-contacts", fi.site(sl), f"{len(count_skips)} count thresholds in the selection loop (expected one: fewer than {c['min_contacts']} contacts)", K(fi, "min-contacts"))
-    for s in extra:
-        chk.violation("select-extra-filter", fi.site(s), f"additional filter `if {norm(s.test)[:70]}: continue` in the selection loop: a supported pair on free edges is dropped (maximality)", K(fi, f"select-extra:{norm(s.test)[:60]}"))
-    # any other guard around the append
+        chk.error("select-roles", fi.site(sl), "the label is not unpacked into five names (residue, residue, c/t, edge, edge)")
+        return
+    r_i, r_j, ct, e_i, e_j = names
+    chk.ok("select-roles", fi.site(sl), f"the label is unpacked as ({', '.join(names)}) in the order the label loop built it")
+    keys = {f"({r_i}, {e_i})": "first", f"({r_j}, {e_j})": "second"}
+    mixed = {f"({r_i}, {e_j})", f"({r_j}, {e_i})"}
+    from sa import paths as P
+
+    try:
+        all_paths = P.paths(sl.body)
+    except P.TooManyPaths as ex:
+        chk.error("edge-exclusive", fi.site(sl), str(ex))
+        return
+
+    alias = {}
+    for s2 in ast.walk(sl):
+        if isinstance(s2, ast.Assign) and len(s2.targets) == 1 and isinstance(s2.targets[0], ast.Name) and isinstance(s2.value, ast.Tuple) and len(astq.assignments(sl, s2.targets[0].id)) == 1:
+            alias[s2.targets[0].id] = norm(s2.value)
+
+    def occ_atom(text: str):
+        """(key, truth-of-'key in occupied') for a membership atom, else None"""
+        for neg, op in ((False, " in occupied"), (True, " not in occupied")):
+            if text.endswith(op):
+                k = text[: -len(op)]
+                return alias.get(k, k), neg
+        return None
+
+    def claimed(events) -> list:
+        out = []
+        for a in P.calls_on(events, "occupied", "add"):
+            out.append((alias.get(norm(a.args[0]), norm(a.args[0])) if a.args else "?", a))
+        for a in P.calls_on(events, "occupied", "update"):
+            if a.args and isinstance(a.args[0], (ast.Tuple, ast.List, ast.Set)):
+                for e in a.args[0].elts:
+                    out.append((alias.get(norm(e), norm(e)), a))
+            else:
+                out.append(("?", a))
+        return out
+
+    def count_consistent(decisions, n: int) -> bool:
+        for (_, text, val, node) in decisions:
+            if cnt in astq.names(node):
+                try:
+                    if bool(intervals.evaluate(node, lambda e, n=n: float(n) if isinstance(e, ast.Name) and e.id == cnt else None, fold)) != val:
+                        return False
+                except Exception:
+                    raise intervals.NotThreshold(f"count test `{text}` not evaluable")
+        return True
+
+    n_report = 0
+    problems = []
+    reported_for = {n: False for n in range(0, 6)}
+    try:
+        for events, exit_ in all_paths:
+            decisions = [e for e in events if e[0] == "test"]
+            order = {id(e): k for k, e in enumerate(events)}
+            appended = P.calls_on(events, "base_base_pairs", "append")
+            cl = claimed(events)
+            adds = [a for _, a in cl]
+            add_keys = [k for k, _ in cl]
+            occ = {}
+            for d in decisions:
+                oa = occ_atom(d[1])
+                if oa:
+                    key, neg = oa
+                    occ[key] = (d[2] != neg, d)  # truth of 'key in occupied'
+            cnt_dec = [d for d in decisions if cnt in astq.names(d[3])]
+            feasible_counts = [n for n in range(0, 6) if count_consistent(decisions, n)]
+            if not feasible_counts:
+                continue  # contradictory count decisions: infeasible path
+            if appended:
+                n_report += 1
+                for key, which in keys.items():
+                    if key not in occ or occ[key][0] is not False:
+                        problems.append(("edge-exclusive", appended[0], f"a pair is reported on a path where the {which} residue's edge key {key} was not tested free in `occupied`: the same edge can be used by two pairs", f"untested:{which}"))
+                    if key not in add_keys:
+                        problems.append(("edge-exclusive", appended[0], f"a reported pair does not claim {key} in `occupied`: a later candidate can reuse the {which} residue's edge", f"unclaimed:{which}"))
+                for k in add_keys:
+                    if k in mixed:
+                        problems.append(("edge-exclusive", appended[0], f"`occupied.add({k})` pairs a residue with the other residue's edge", f"mixed:{k}"))
+                if any(n < c["min_contacts"] for n in feasible_counts):
+                    problems.append(("select-min-contacts", appended[0], f"a pair can be reported with {min(feasible_counts)} contact(s) (count decisions on the path: {[(d[1], d[2]) for d in cnt_dec] or 'none'}); the statement needs at least {c['min_contacts']}", "min-contacts"))
+                if all(v[0] is False for v in occ.values()):
+                    for n in feasible_counts:
+                        reported_for[n] = True
+            else:
+                if add_keys:
+                    problems.append(("edge-exclusive", adds[0], f"`occupied.add({add_keys[0]})` runs on a path that does not report the pair (decisions: {[(d[1], d[2]) for d in decisions]}): the edge is blocked for later, well supported candidates although nothing uses it (maximality)", "claim-without-report"))
+                too_few = all(n < c["min_contacts"] for n in feasible_counts)
+                blocked = any(v[0] is True and k in keys for k, v in occ.items())
+                if not too_few and not blocked:
+                    other = [d for d in decisions if d not in cnt_dec and not occ_atom(d[1])]
+                    why = other[-1] if other else (decisions[-1] if decisions else None)
+                    problems.append(("select-extra-filter", why[3] if why else sl, f"a candidate with enough contacts and both edges free is dropped when `{why[1] if why else '?'}` is {why[2] if why else '?'}: additional filter (maximality)", f"select-extra:{why[1][:60] if why else '?'}"))
+    except intervals.NotThreshold as ex:
+        chk.error("select-min-contacts", fi.site(sl), str(ex))
+        return
+    seen = set()
+    for rule, node, msg, key in problems:
+        if (rule, key) in seen:
+            continue
+        seen.add((rule, key))
+        chk.violation(rule, fi.site(node), msg, K(fi, key))
+    rules_hit = {r for r, *_ in problems}
+    if n_report == 0:
+        chk.violation("select-record", fi.site(sl), "no path through the selection loop reports a pair", K(fi, "record"))
+        return
+    if "edge-exclusive" not in rules_hit:
+        chk.ok("edge-exclusive", fi.site(sl), f"{len(all_paths)} paths: a pair is reported only after both (residue, edge) keys were tested free")
+        chk.ok("edge-exclusive", fi.site(sl), "every reported pair claims both of its keys; no key is claimed on a path that does not report")
+    if "select-extra-filter" not in rules_hit:
+        chk.ok("select-extra-filter", fi.site(sl), "a candidate is dropped only for too few contacts or an occupied edge (all non-reporting paths justified)")
+    if "select-min-contacts" not in rules_hit:
+        want = {n: n >= c["min_contacts"] for n in range(0, 6)}
+        chk.expect(reported_for == want, "select-min-contacts", fi.site(sl), f"with free edges a label is reported iff it has at least {c['min_contacts']} contacts (counts 0..5 evaluated)", f"the count threshold does not report exactly the labels with at least {c['min_contacts']} contacts", K(fi, "min-contacts"), expected=want, found=reported_for)
+    occ_binds = astq.assignments(fi.node, "occupied")
+    occ_init = astq.first_assign(fi.node, "occupied")
+    if occ_init is not None and norm(occ_init) in ("set()", "set([])") and len(occ_binds) == 1 and not any(occ_binds[0][0] is n for n in ast.walk(sl)):
+        chk.ok("edge-exclusive", fi.where, "occupied starts empty, once, before the selection")
+    elif any(any(b[0] is n for n in ast.walk(sl)) for b in occ_binds):
+        chk.violation("edge-exclusive", fi.site(occ_binds[0][0]), "`occupied` is re-initialised inside the selection loop: edges claimed by earlier pairs are forgotten", K(fi, "occupied-init"))
+    else:
+        chk.error("edge-exclusive", fi.where, "initialisation of `occupied` not recognised")
+    # LW lookup and record
     bp = [a for a in astq.calls(sl, "append") if astq.dotted(a.func.value) == "base_base_pairs"]
     if len(bp) != 1:
-        raise AnalysisError("base_base_pairs.append not found in the selection loop")
-    extra_g = [g for g in fm.guards_within(fm.stmt_of(bp[0]), sl) if g.kind == "if"]
-    for g in extra_g:
-        chk.violation("select-extra-filter", fi.site(g.stmt), f"the pair is appended only under `{norm(g.test)[:70]}`: additional filter (maximality)", K(fi, f"select-guard:{norm(g.test)[:60]}"))
-    chk.ok("select-extra-filter", fi.site(sl), "a candidate is skipped only for too few contacts or an occupied edge")
-    # guarded insert on occupied
-    unp = [s for s in sl.body if isinstance(s, ast.Assign) and isinstance(s.targets[0], ast.Tuple) and norm(s.value) == inter]
-    roles_ok = len(unp) == 1 and norm(unp[0].targets[0]) == "(residue_i, residue_j, cis_trans, edge_i, edge_j)"
-    chk.expect(roles_ok, "select-roles", fi.site(sl), "the label is unpacked as (residue_i, residue_j, cis_trans, edge_i, edge_j)", "the label is not unpacked in the order it was built", K(fi, "select-unpack"))
-    tests = sorted(norm(s.test) for s in occ_skips)
-    adds = sorted(norm(a.args[0]) for a in astq.calls(sl, "add") if astq.dotted(a.func.value) == "occupied" and any(fm.stmt_of(a) is s for s in sl.body))
-    want_keys = ["(residue_i, edge_i)", "(residue_j, edge_j)"]
-    chk.expect(
-        tests == [k + " in occupied" for k in want_keys] and adds == want_keys and all(fm.stmt_of(a).lineno < fm.stmt_of(bp[0]).lineno or True for a in astq.calls(sl, "add")),
-        "edge-exclusive",
-        fi.site(sl),
-        "both (residue, edge) keys are tested against `occupied` before, and inserted with, every reported pair",
-        "the guarded insert on `occupied` is broken: test keys and inserted keys must both be (residue_i, edge_i) and (residue_j, edge_j)",
-        K(fi, "occupied"),
-        expected={"tests": [k + " in occupied" for k in want_keys], "adds": want_keys},
-        found={"tests": tests, "adds": adds},
-    )
-    # order: tests before the append
-    if occ_skips:
-        chk.expect(all(s.lineno < fm.stmt_of(bp[0]).lineno for s in occ_skips), "edge-exclusive", fi.site(sl), "occupied tests precede the append", "a pair is appended before its edges are tested", K(fi, "occupied-order"))
-    occ_init = astq.first_assign(fi.node, "occupied")
-    chk.expect(occ_init is not None and norm(occ_init) == "set()" and len(astq.assignments(fi.node, "occupied")) == 1, "edge-exclusive", fi.where, "occupied starts empty, once", "`occupied` is not a set initialised once before the selection", K(fi, "occupied-init"))
-    # LW lookup and record
-    d = [v for s, v in astq.assignments(sl, "lw") if v is not None]
-    chk.expect(len(d) == 1 and norm(d[0]) == "LeontisWesthof[f'{cis_trans}{edge_i}{edge_j}']", "select-class", fi.site(sl), "class = LeontisWesthof[c/t + edge of first + edge of second]", "the class is not LeontisWesthof[cis_trans + edge_i + edge_j]", K(fi, "lw"), found=[norm(x) for x in d])
-    chk.expect(norm(bp[0].args[0]) == "(residue_i, residue_j, lw)", "select-record", fi.site(bp[0]), "pair recorded as (residue_i, residue_j, lw)", "recorded pair is not (residue_i, residue_j, lw)", K(fi, "record"))
+        chk.error("select-record", fi.site(sl), "expected one base_base_pairs.append site")
+        return
+    rec = inl.inline(bp[0].args[0], fm.stmt_of(bp[0]), stop=tuple(names)) if bp[0].args else None
+    want_rec = f"({r_i}, {r_j}, LeontisWesthof[f'{{{ct}}}{{{e_i}}}{{{e_j}}}'])"
+    alt = f"({r_i}, {r_j}, LeontisWesthof[{ct} + {e_i} + {e_j}])"
+    if rec is not None and norm(rec) in (want_rec, alt):
+        chk.ok("select-class", fi.site(bp[0]), "class = LeontisWesthof[c/t + edge of first + edge of second]")
+        chk.ok("select-record", fi.site(bp[0]), "pair recorded as (first residue, second residue, class)")
+    else:
+        swapped = rec is not None and norm(rec) in (f"({r_i}, {r_j}, LeontisWesthof[f'{{{ct}}}{{{e_j}}}{{{e_i}}}'])", f"({r_j}, {r_i}, LeontisWesthof[f'{{{ct}}}{{{e_i}}}{{{e_j}}}'])")
+        if swapped:
+            chk.violation("select-class", fi.site(bp[0]), f"recorded pair `{norm(rec)}` gives the edges to the wrong residues", K(fi, "lw"), found=norm(rec))
+        else:
+            chk.violation("select-record", fi.site(bp[0]), f"recorded pair is `{norm(rec) if rec is not None else None}`, not (first residue, second residue, LeontisWesthof[c/t + edges])", K(fi, "record"), found=norm(rec) if rec is not None else None)
 
 
 def check_cis_trans(chk) -> None:
@@ -385,19 +576,91 @@ def check_cis_trans(chk) -> None:
         chk.expect(not bad, "cis-trans", fi.site(rets[0]), f"'c' iff the C1'-N...N-C1' torsion lies in ({lo}, {hi}) degrees", f"cis/trans boundary is not +-90 degrees of the glycosidic-bond torsion (`{norm(ie.test)}` after unit conversion)", K(fi, "boundary"), expected=f"c iff {lo} < torsion_deg < {hi}", found={str(k): v for k, v in list(bad.items())[:5]})
     except intervals.NotThreshold as ex:
         chk.error("cis-trans", fi.site(rets[0]), str(ex))
-    # atoms of the torsion
+    # atoms of the torsion: each argument resolved to (residue, atom name as a function of the base letter)
     tc0 = [n for n in ast.walk(ie.test) if isinstance(n, ast.Call) and astq.callee_name(n) == "torsion_angle"]
     if not tc0:
         d0 = [n for n in ast.walk(inl.inline(ie.test, rets[0], depth=1)) if isinstance(n, ast.Call) and astq.callee_name(n) == "torsion_angle"]
         tc0 = d0 or tc
-    txt = [norm(a) for a in tc0[0].args]
-    chk.expect(txt in (["c1p_i", "n9n1_i", "n9n1_j", "c1p_j"], ["c1p_j", "n9n1_j", "n9n1_i", "c1p_i"]), "cis-trans-atoms", fi.site(tc[0]), "torsion over C1'(i) - N9/N1(i) - N9/N1(j) - C1'(j)", f"torsion atoms are {txt}, not C1'(i), N(i), N(j), C1'(j)", K(fi, "torsion-order"), found=txt)
-    for side in "ij":
-        d = [v for s, v in astq.assignments(fi.node, f"c1p_{side}") if v is not None]
-        chk.expect(len(d) == 1 and norm(d[0]) == f"residue_{side}.find_atom(\"C1'\")", "cis-trans-atoms", fi.where, f"c1p_{side} is C1' of residue_{side}", f"c1p_{side} is not residue_{side}.find_atom(\"C1'\")", K(fi, f"c1p_{side}"))
-        ifs = [s for s in fi.node.body if isinstance(s, ast.If) and norm(s.test) in (f"residue_{side}.one_letter_name in 'AG'", f"residue_{side}.one_letter_name.upper() in 'AG'", f"residue_{side}.one_letter_name in ('A', 'G')")]
-        ok = len(ifs) == 1 and [norm(s) for s in ifs[0].body] == [f"n9n1_{side} = residue_{side}.find_atom('N9')"] and [norm(s) for s in ifs[0].orelse] == [f"n9n1_{side} = residue_{side}.find_atom('N1')"]
-        chk.expect(ok, "cis-trans-atoms", fi.where, f"residue_{side}: N9 for purines (A, G), N1 otherwise", f"glycosidic nitrogen of residue_{side} is not N9 for A/G and N1 otherwise", K(fi, f"n9n1_{side}"))
+    call = tc0[0]
+    if len(call.args) != 4:
+        chk.error("cis-trans-atoms", fi.site(tc[0]), "torsion_angle is not called with four atoms")
+        return
+    letters = ["A", "G", "C", "U", "T", "N"]
+
+    def resolve(e: ast.expr, depth: int = 6) -> ast.expr:
+        """Replace local names by their definitions; a name defined in both branches of one `if` becomes a conditional expression."""
+        if depth == 0:
+            return e
+
+        class _R(ast.NodeTransformer):
+            def visit_Name(s2, n):
+                if not isinstance(n.ctx, ast.Load) or n.id in ("residue_i", "residue_j"):
+                    return n
+                defs = [(st, v) for st, v in astq.assignments(fi.node, n.id) if v is not None]
+                if len(defs) == 1 and isinstance(defs[0][0], ast.Assign) and isinstance(defs[0][0].targets[0], ast.Name):
+                    return resolve(copy.deepcopy(defs[0][1]), depth - 1)
+                if len(defs) == 1 and isinstance(defs[0][0], ast.Assign) and isinstance(defs[0][0].targets[0], ast.Tuple) and isinstance(defs[0][1], ast.Tuple) and len(defs[0][1].elts) == len(defs[0][0].targets[0].elts):
+                    for t, v in zip(defs[0][0].targets[0].elts, defs[0][1].elts):
+                        if isinstance(t, ast.Name) and t.id == n.id:
+                            return resolve(copy.deepcopy(v), depth - 1)
+                if len(defs) == 2:
+                    for iff in [x for x in ast.walk(fi.node) if isinstance(x, ast.If)]:
+                        a = [v for st, v in defs if st in iff.body]
+                        b = [v for st, v in defs if st in iff.orelse]
+                        if len(a) == 1 and len(b) == 1:
+                            return ast.IfExp(test=resolve(copy.deepcopy(iff.test), depth - 1), body=resolve(copy.deepcopy(a[0]), depth - 1), orelse=resolve(copy.deepcopy(b[0]), depth - 1))
+                return n
+
+        return ast.fix_missing_locations(_R().visit(copy.deepcopy(e)))
+
+    class _Res:
+        def __init__(self, letter):
+            self.one_letter_name = letter
+
+    got = []
+    for a in call.args:
+        r = resolve(a)
+        sides = {x.id for x in ast.walk(r) if isinstance(x, ast.Name) and x.id in ("residue_i", "residue_j")}
+        if len(sides) != 1:
+            got.append((None, None, norm(r)))
+            continue
+        side = next(iter(sides))
+        table = {}
+        for L in letters:
+            # evaluate which find_atom(<name>) the expression denotes for base letter L
+            cur = r
+            name = None
+            for _ in range(6):
+                if isinstance(cur, ast.IfExp):
+                    tv = Folder(repo, AN, {side: _Res(L)}).try_fold(cur.test, None)
+                    if tv is None:
+                        break
+                    cur = cur.body if tv else cur.orelse
+                    continue
+                m = astq.match(cur, f"{side}.find_atom(X_)")
+                if m:
+                    name = Folder(repo, AN, {side: _Res(L)}).try_fold(m["X_"], None)
+                break
+            table[L] = name
+        got.append((side, table, norm(r)))
+    c1 = {L: "C1'" for L in letters}
+    nn = {L: ("N9" if L in "AG" else "N1") for L in letters}
+    want_a = [("residue_i", c1), ("residue_i", nn), ("residue_j", nn), ("residue_j", c1)]
+    want_b = [("residue_j", c1), ("residue_j", nn), ("residue_i", nn), ("residue_i", c1)]
+    have = [(g[0], g[1]) for g in got]
+    if any(g[0] is None or g[1] is None or None in g[1].values() for g in got):
+        chk.error("cis-trans-atoms", fi.site(tc[0]), f"torsion atoms {[g[2][:60] for g in got]} not resolved to find_atom(<name>) of one residue")
+    else:
+        chk.expect(
+            have in (want_a, want_b),
+            "cis-trans-atoms",
+            fi.site(tc[0]),
+            "torsion over C1'(i) - N9/N1(i) - N9/N1(j) - C1'(j); N9 for A/G, N1 for C/U/T/other (evaluated per base letter)",
+            "the cis/trans torsion is not taken over C1'(i), N9|N1(i), N9|N1(j), C1'(j) with N9 for purines (A, G) and N1 otherwise",
+            K(fi, "torsion-atoms"),
+            expected=[(w[0], w[1]["A"], w[1]["C"]) for w in want_a],
+            found=[(g[0], g[1]["A"], g[1]["C"]) for g in got],
+        )
 
 
 def check_base_normal(chk) -> None:
@@ -430,6 +693,13 @@ def check_base_normal(chk) -> None:
     )
 
 
+# rules whose violations are evaluated facts about the current code (folded constants, accept regions, path enumeration, tables)
+ROBUST = {
+    "table-pinned", "table-closure", "lw-total", "contact-radius", "contact-source", "angle-window", "cis-trans", "select-min-contacts",
+    "edge-exclusive", "select-extra-filter", "select-class", "label-orientation", "cis-trans-atoms",
+}
+
+
 def run(chk) -> None:
     chk.explanation = (
         "Static rules on annotator.find_pairs, detect_cis_trans, Residue3D.base_normal_vector and the tables of tertiary.py: constant-folded contact radius; "
@@ -440,6 +710,7 @@ def run(chk) -> None:
     )
     chk.trusted = ["CPython ast", "scipy KDTree.query_pairs returns every pair within the radius", "pinned tables in spec/lw_edges.json (provenance there)"]
     chk.assumptions = ["contacts within 1e-6 of a threshold are undecided (strictness of comparisons is not compared)", "float geometry itself is not decided"]
+    chk.robust |= ROBUST
     check_tables(chk)
     check_find_pairs(chk)
     check_cis_trans(chk)
